@@ -31,6 +31,7 @@ const nn = gpbft.NetworkName("vnet")
 func TestMain(m *testing.M) {
 	vev.Rule(c16, "generated stores (0..N certificates over evolving tables, first instance generated) served by a real certexchange.Server over an in-process libp2p network; generated requests (first around the stored range and near 2^64, limit in {0,1,2,255,256,257,NoLimit,...}, with/without power table) read through a RAW stream (everything the server writes) and through Client.Request; oracle: header advertises latest+1, certificates are byte-for-byte the stored ones for first, first+1, ..., at most min(limit,256), none at or beyond the advertised pending instance, table present iff requested and equal to the store's table for first. "+
 		"Pollers: a scripted Byzantine responder (forged, reordered, duplicated, truncated certificates, valid prefixes, mis-advertised pending instance, several request rounds) is polled by a real polling.Poller; afterwards store, NextInstance, PowerTable and status must equal a model that validates each wire item with the reference validator against the poller's own table. Non-trivial = request that reaches a limit or range boundary / script with at least one invalid or out-of-order item; distinct by digest of (store, request) or script")
+	vev.Rule(c12, c12rule)
 	vev.Rule(c18, c18rule)
 	vev.Rule(c20, c20rule)
 	vev.Main(m)
